@@ -1,6 +1,6 @@
 (* Props/C16.v -- the property theorems of C16, and nothing else.  Each is closed by [exact] of a
    lemma proved in C16/, its statement is pinned by [Check], and [Print Assumptions] follows. *)
-From C16 Require Import Casm Vm Roundtrip Denote Step.
+From C16 Require Import Casm Vm Roundtrip Denote Step Run.
 
 (* Every instruction the toolchain can assemble (every operand shape, register, offsets in the
    full i16 range, arbitrary immediate, with or without ap++) encodes to words that cairo-vm's
@@ -45,6 +45,65 @@ Theorem C16_step_sound : forall finv,
   denotes i m' s (s_next sr).
 Proof. exact step_sound. Qed.
 
+(* From one step to whole executions.  [vm_trace finv n m s] iterates fetch / decode / execute and
+   inserts the deduced cells into the write-once memory ([commit]: a conflicting insert is the VM's
+   InconsistentMemory error).  In ANY execution of ANY length [n], from ANY canonical memory and
+   register state, every step that starts at the address of an instruction that was assembled,
+   encoded and loaded into the initial memory does what that instruction denotes, read in the FINAL
+   memory [mf] of the execution: the assertion a step made is never invalidated by a later step.
+   Steps that start anywhere else (data, the immediate of an instruction) are not constrained. *)
+Theorem C16_run_sound : forall finv,
+  (forall z z0, 0 <= z < P -> 0 <= z0 < P -> z0 <> 0 ->
+     fmul (fmul z (finv z0)) z0 = z /\ fmul z0 (fmul z (finv z0)) = z) ->
+  forall n m s mf tr k sk sk' i,
+  canonical m ->
+  vm_trace finv n m s = Some (mf, tr) ->
+  nth_error (s :: tr) k = Some sk -> nth_error tr k = Some sk' ->
+  loaded m (pc sk) i ->
+  denotes i mf sk sk'.
+Proof. exact run_sound. Qed.
+
+(* non-vacuity: a three-instruction loaded program
+     (0,0): [ap + 0] = 7, ap++        (0,2): [ap + 0] = [ap + -1] * [ap + -1], ap++
+     (0,3): jmp rel -1
+   runs for 5 steps (the loop re-executes the square at a new ap each time); every visited pc holds
+   a loaded instruction, the final memory holds 7, 49, 2401 and the run is accepted. *)
+Definition rp_i0 : instr :=
+  {| ibody := AssertEq {| c_reg := AP; c_off := 0 |} (RImm 7); inc_ap := true |}.
+Definition rp_i1 : instr :=
+  {| ibody := AssertEq {| c_reg := AP; c_off := 0 |}
+                (RBin OMul {| c_reg := AP; c_off := -1 |} (DDeref {| c_reg := AP; c_off := -1 |}));
+     inc_ap := true |}.
+Definition rp_i2 : instr := {| ibody := Jump (DImm (-1)) true; inc_ap := false |}.
+Definition w0_of (i : instr) : Z := match assemble i with Some r => word0 r | None => 0 end.
+Definition rp_m : memory := fun a =>
+  if (fst a =? 0) && (snd a =? 0) then Some (VInt (w0_of rp_i0))
+  else if (fst a =? 0) && (snd a =? 1) then Some (VInt 7)
+  else if (fst a =? 0) && (snd a =? 2) then Some (VInt (w0_of rp_i1))
+  else if (fst a =? 0) && (snd a =? 3) then Some (VInt (w0_of rp_i2))
+  else if (fst a =? 0) && (snd a =? 4) then Some (VInt (P - 1))
+  else if (fst a =? 1) && (snd a =? 8) then Some (VRel 1 2)     (* caller's fp *)
+  else if (fst a =? 1) && (snd a =? 9) then Some (VRel 0 100)   (* return pc: the VM reads [fp - 1] as op0 *)
+  else None.
+Definition rp_s : state := {| pc := (0, 0); ap := 10; fp := 10 |}.
+Example C16_run_example :
+  loaded rp_m (0, 0) rp_i0 /\ loaded rp_m (0, 2) rp_i1 /\ loaded rp_m (0, 3) rp_i2 /\
+  exists mf tr, vm_trace (fun _ => 0) 5 rp_m rp_s = Some (mf, tr)
+    /\ map pc (rp_s :: tr) = [(0, 0); (0, 2); (0, 3); (0, 2); (0, 3); (0, 2)]
+    /\ map ap tr = [11; 12; 12; 13; 13]
+    /\ (mf (1, 10), mf (1, 11), mf (1, 12)) = (Some (VInt 7), Some (VInt 49), Some (VInt 2401)).
+Proof.
+  split; [|split; [|split]].
+  - split; [cbn; unfold wf_cell, i16; cbn; lia|]. split; [exact I|].
+    eexists. split; [reflexivity|]. split; [reflexivity|]. cbn. eexists. split; reflexivity.
+  - split; [cbn; unfold wf_cell, i16; cbn; lia|]. split; [exact I|].
+    eexists. split; [reflexivity|]. split; [reflexivity|exact I].
+  - split; [exact I|]. split; [exact I|].
+    eexists. split; [reflexivity|]. split; [reflexivity|]. cbn. eexists. split; reflexivity.
+  - eexists. eexists. split; [vm_compute; reflexivity|].
+    split; [reflexivity|]. split; [reflexivity|]. vm_compute. reflexivity.
+Qed.
+
 (* non-vacuity of the step theorem: `[ap + 0] = [fp + -3] + 5, ap++` from a state where the
    destination cell is unknown: the hypotheses are met, the VM deduces the cell and writes 42 *)
 Definition ex_i : instr :=
@@ -86,3 +145,4 @@ Print Assumptions C16_roundtrip.
 Print Assumptions C16_assemble_total.
 Print Assumptions C16_qm31_rejected.
 Print Assumptions C16_step_sound.
+Print Assumptions C16_run_sound.
